@@ -31,7 +31,11 @@ impl ReferentialIntegrity {
             return Ok(true);
         }
 
-        let inner: Vec<_> = inner
+        let mut distinct = inner.to_vec();
+        distinct.sort_unstable();
+        distinct.dedup();
+
+        let inner: Vec<_> = distinct
             .iter()
             .map(|u| f_eq(Attribute::Uuid, PartialValue::Uuid(*u)))
             .collect();
@@ -39,17 +43,18 @@ impl ReferentialIntegrity {
         // F_inc(lusion). All items of inner must be 1 or more, or the filter
         // will fail. This will return the union of the inclusion after the
         // operation.
+        //
+        // The inclusion only requires each term to be present in the index, which
+        // still holds recycled and tombstoned entries. The exclusion of those is
+        // applied to the union afterwards, so we must confirm that *every* uuid
+        // was returned as a live entry rather than that the union is non-empty.
         let filt_in = filter!(f_inc(inner));
-        let b = qs.internal_exists(&filt_in).inspect_err(|err| {
-            error!(?err, filter = ?filt_in, "internal exists failure");
+        let found = qs.internal_search(filt_in).inspect_err(|err| {
+            error!(?err, "internal search failure");
         })?;
 
         // Is the existence of all id's confirmed?
-        if b {
-            Ok(true)
-        } else {
-            Ok(false)
-        }
+        Ok(found.len() == distinct.len())
     }
 
     #[instrument(level = "debug", name = "check_uuids_exist_slow", skip_all)]
